@@ -537,7 +537,7 @@ def run(chk, replay=None):
     for nm in ['sin_cos', 'function', 'func', 'integral', 'derivative_undef', 'integrate_0', 'integrate_0minus']:
         wrap(nm)
 
-    n_cases = 78 if quick else 520
+    n_cases = 78 if quick else 360
     gen = Gen(rng)
     chk.coverage['rule'] = ('each case = a sum of 1-3 generated raw terms (shapes: constant, polynomial*exp, complex exp, sinh/cosh, sin/cos fast path '
                             'with phase/damping/delay, general products, steps and deltas (derivatives, scaled, delayed) times smooth factors, '
@@ -567,7 +567,7 @@ def run(chk, replay=None):
     def on_alarm(signum, frame):
         raise SlowCase()
     signal.signal(signal.SIGALRM, on_alarm)
-    budget = 8 if quick else 40      # seconds per Lcapy transform (SymPy integrate fall-backs can take minutes)
+    budget = 8 if quick else 12      # seconds per Lcapy transform (SymPy integrate fall-backs can take minutes)
 
     def lcapy_value(e, smp, xs, zic):
         """Lcapy's transform of the lcapy expression e, sampled -> (re, im) | None ; raises on Lcapy error"""
@@ -843,8 +843,10 @@ def run(chk, replay=None):
         terms = [gen.term() for _ in range(nterm)]
         if sum(1 for t in terms if t[2]['kind'] == 'undef') > 1:
             terms = terms[:1]
+        n_slow = chk.coverage.get('distribution', {}).get('degenerate', {}).get('lcapy-slow(>%ds)' % budget, 0)
         timed_case(terms, 'generated')
-        if not quick:
+        slow_now = chk.coverage.get('distribution', {}).get('degenerate', {}).get('lcapy-slow(>%ds)' % budget, 0) > n_slow
+        if not quick and not slow_now:
             timed_case(terms, 'generated-second-point')
 
     # ---- 3c. error paths and API entry points (no value to judge: the property speaks of returned closed forms); counted only
